@@ -1,11 +1,11 @@
 #!/venv/bin/python
 """Re-run the checks against every kept seeded change (after checks were strengthened).
-The change is applied in the scratch worktree /tmp/mut2 and the checks are pointed at it with
+The change is applied in the scratch worktree /tmp/mut3 and the checks are pointed at it with
 VERIF_REPO (no file of /repo is touched); evidence and replays go to scratch directories.
 usage: tools/reeval_seeded.py [ID ...]   (default: all)"""
 import glob, json, os, re, subprocess, sys
 V = os.path.dirname(os.path.dirname(os.path.abspath(__file__)))
-WT = "/tmp/mut2"
+WT = "/tmp/mut3"
 ids = sys.argv[1:] or sorted(os.path.basename(d) for d in glob.glob(os.path.join(V, "seeded", "*")))
 env = {**os.environ, "VERIF_REPO": WT, "VERIF_EVIDENCE_DIR": "/var/tmp/vfw_re_ev", "VERIF_REPLAY_DIR": "/var/tmp/vfw_re_rp"}
 for sid in ids:
@@ -24,7 +24,7 @@ for sid in ids:
                     outcome.append("silent" if r.returncode == 0 else f"exit{r.returncode}")
             meta["checks"][c] = {"fired": "FIRED" in outcome, "outcome": outcome, "keys": keys[:6]}
         meta["caught_by"] = [c for c, v in meta["checks"].items() if v["fired"]]
-        meta["reevaluated"] = "checks re-run after strengthening, change applied in scratch worktree /tmp/mut2 (VERIF_REPO), seeds 0,1"
+        meta["reevaluated"] = "checks re-run after strengthening, change applied in scratch worktree /tmp/mut3 (VERIF_REPO), seeds 0,1"
         json.dump(meta, open(os.path.join(d, "meta.json"), "w"), indent=1)
         print(sid, "caught_by", meta["caught_by"], {c: v["outcome"] for c, v in meta["checks"].items()}, flush=True)
     finally:
